@@ -351,6 +351,36 @@ def main(argv):
             broken.append({"kind": "correspondence", "name": "Corr.%s: model and implementation disagree on %d of %d cases" % (pid, len(mism), result.get("coq_cases", 0)),
                            "detail": {"first_indices": mism[:20], "cases": cm}})
 
+    # --- search step: replay the first disagreeing cases through the driver's oracle ---
+    # A model/implementation disagreement names a concrete input; the driver (replay mode) runs its
+    # direct property oracle on exactly that input, so a violation is reported with a failing input
+    # where the oracle of the generating run did not look at that case. Best effort: a driver that
+    # cannot read the case description as an input simply reports nothing here.
+    if mism and result is not None and not a.replay and not (result.get("failures") or []):
+        cm = case_meta(workdir, mism[:3])
+        for k in sorted(cm.keys()):
+            sub = os.path.join(workdir, "search%d" % k)
+            os.makedirs(sub, exist_ok=True)
+            rpf = os.path.join(sub, "in.json")
+            with open(rpf, "w") as f:
+                json.dump({"input": cm[k]}, f, default=str)
+            cmd = [bin_path(a.tags), "run", "-repo", REPO, "-id", pid, "-seed", str(a.seed), "-tier", a.tier, "-out", sub,
+                   "-corpus", os.path.join(VERIF, "corpus", pid), "-replay", rpf]
+            try:
+                rc, _o, _to = sh(cmd, cwd=sub, timeout=180)
+                rp2 = os.path.join(sub, "result.json")
+                if rc == 0 and os.path.exists(rp2):
+                    with open(rp2) as f:
+                        r2 = json.load(f)
+                    for fl in (r2.get("failures") or []):
+                        result.setdefault("failures", [])
+                        result["failures"] = (result["failures"] or []) + [fl]
+                        fc = result.setdefault("failure_counts", {})
+                        fc[fl.get("class", "")] = fc.get(fl.get("class", ""), 0) + 1
+                    stages["search_replay_case_%d" % k] = "%d failure(s)" % len(r2.get("failures") or [])
+            except Exception as e:  # never let the search step break the verdict
+                stages["search_replay_case_%d" % k] = "error: %s" % e
+
     # --- thorough: independent re-check of the compiled proofs ---
     chk = None
     if a.tier == "thorough" and build_ok and not a.replay:
